@@ -3,6 +3,7 @@ import Brc20.Model.DriverC
 import Brc20.Model.DriverP
 import Brc20.Model.DriverF
 import Brc20.Model.DriverE
+import Brc20.Model.DriverA
 
 open Brc20
 
@@ -39,6 +40,7 @@ def main (args : List String) : IO UInt32 := do
   match args with
   | ["T"] => loopT stdin stdout {}; return 0
   | ["C"] => loopStateless stdin stdout DriverC.step; return 0
+  | ["A"] => loopStateless stdin stdout DriverA.step; return 0
   | ["E"] => loopE stdin stdout {}; return 0
   | ["F"] => loopF stdin stdout .missing; return 0
   | ["P"] => loopStateless stdin stdout DriverP.step; return 0
